@@ -6,7 +6,7 @@
      which the translated function now differs from the model. *)
 From Coq Require Import List NArith ZArith Bool String.
 From Coq.Strings Require Import Byte.
-From RTCP Require Import Lib.Base Lib.Sval Lib.GoSem Gen.Funcs
+From RTCP Require Import Lib.Base Lib.Sval Lib.GoSem Gen.Funcs Gen.FuncsRemb
   Model.Header Model.Feedback Model.Packet Check.Codec Check.Ops.
 Import ListNotations.
 Local Open Scope string_scope.
@@ -39,35 +39,62 @@ Fixpoint sval_weight (v : sval) : N :=
   end.
 Definition src_check_bound : N := 3000.
 
+(* the REMB packet is an opaque member of GoSrc's Packet sum (there its methods ARE the model's); its own translation, floats
+   included, is module GoSrcRemb: the by-name dispatch goes there for that type *)
+Definition is_remb (n : string) : bool := n =? "ReceiverEstimatedMaximumBitrate".
+Definition t_unmarshal n b := if is_remb n then GoSrcRemb.src_unmarshal n b else GoSrc.src_unmarshal n b.
+Definition t_marshal n l := if is_remb n then GoSrcRemb.src_marshal n l else GoSrc.src_marshal n l.
+Definition t_size n l := if is_remb n then GoSrcRemb.src_size n l else GoSrc.src_size n l.
+Definition t_dest n l := if is_remb n then GoSrcRemb.src_dest n l else GoSrc.src_dest n l.
+Definition t_header n l := if is_remb n then GoSrcRemb.src_header n l else GoSrc.src_header n l.
+
+(* NackPair.Range with the callback the harness uses: it records its argument and answers false on call number k *)
+Definition range_stopper (k : option nat) : nat * list Z -> Z -> (nat * list Z) * bool :=
+  fun s x => ((S (fst s), List.app (snd s) [x]), match k with Some k => negb (Nat.eqb (fst s) k) | None => true end).
+Definition src_range (id bm : N) (k : option nat) : sval :=
+  sres (fun s : nat * list Z => SL (map GoSrc.zn (snd s)))
+       (GoSrc.NackPair_Range _ (range_stopper k) (GoSrc.mkNackPair (Z.of_N id) (Z.of_N bm)) (0%nat, [])).
+Definition src_plist (id bm : N) : sval :=
+  sres (fun l => SL (map GoSrc.zn l)) (GoSrc.NackPair_PacketList (GoSrc.mkNackPair (Z.of_N id) (Z.of_N bm))).
+
 Definition src_check_all (op : sval) : list sval :=
   match op with
+  | SL [SY o; SN id; SN bm] =>
+      if o =? "plist" then cmp_plain "packet_list" (sNs (packet_list (mkNackPair id bm))) (Some (src_plist id bm)) else []
+  | SL [SY o; SN id; SN bm; k] =>
+      if o =? "range" then
+        match stop_of k with
+        | Some st => cmp_plain "range" (sNs (nack_range (mkNackPair id bm) st)) (Some (src_range id bm st))
+        | None => []
+        end
+      else []
   | SL [SY o; SY n; SB b] =>
       if (o =? "dec") || (o =? "inflated") || (o =? "scribble") then
         if n =? "CompoundPacket" then
           cmp "compound_unmarshal" (sres (fun l => SL (map s_packet l)) (Compound_unmarshal b)) (GoSrc.src_compound_unmarshal b)
         else
-        match dec_by_name n b with Some m => cmp "unmarshal" m (GoSrc.src_unmarshal n b) | None => [] end
+        match dec_by_name n b with Some m => cmp "unmarshal" m (t_unmarshal n b) | None => [] end
       else []
   | SL [SY o; SY n; SL bs] =>
       if o =? "decs" then
         flat_map (fun x => match x with
-                           | SB b => match dec_by_name n b with Some m => cmp "unmarshal" m (GoSrc.src_unmarshal n b) | None => [] end
+                           | SB b => match dec_by_name n b with Some m => cmp "unmarshal" m (t_unmarshal n b) | None => [] end
                            | _ => [] end) bs
       else []
   | SL [SY o; SY n; SB b; _] =>
       if o =? "variant" then
-        match dec_by_name n b with Some m => cmp "unmarshal" m (GoSrc.src_unmarshal n b) | None => [] end
+        match dec_by_name n b with Some m => cmp "unmarshal" m (t_unmarshal n b) | None => [] end
       else []
   | SL [SY o; SL (SY n :: fields)] =>
       if o =? "encu" then
-        match encu (SL (SY n :: fields)) with Some m => cmp "marshal" m (GoSrc.src_marshal n fields) | None => [] end
+        match encu (SL (SY n :: fields)) with Some m => cmp "marshal" m (t_marshal n fields) | None => [] end
       else if (o =? "enc") || (o =? "rt") || (o =? "str") then
         match p_packet (SL (SY n :: fields)) with
         | Some p =>
-            cmp "marshal" (sres SB (marshal_packet p)) (GoSrc.src_marshal n fields)
-            ++ cmp_plain "size" (SN (size_packet p)) (GoSrc.src_size n fields)
-            ++ cmp_plain "dest" (sNs (dest_packet p)) (GoSrc.src_dest n fields)
-            ++ match header_of_packet p with Some h => cmp_plain "header" (s_header h) (GoSrc.src_header n fields) | None => [] end
+            cmp "marshal" (sres SB (marshal_packet p)) (t_marshal n fields)
+            ++ cmp_plain "size" (SN (size_packet p)) (t_size n fields)
+            ++ cmp_plain "dest" (sNs (dest_packet p)) (t_dest n fields)
+            ++ match header_of_packet p with Some h => cmp_plain "header" (s_header h) (t_header n fields) | None => [] end
         | None => []
         end
       else []
